@@ -100,3 +100,41 @@ CHECKS["C03"] = {
     "technique": "contract-based deductive verification: symbolic execution of the real tensor code under pointwise-tensor op contracts, class invariant + z3 (NRA); native replay of counterexamples",
 }
 NOT_APPLICABLE.pop("C03", None)
+
+_PIPE = ("skeleton-bounded, value-unbounded: the structure (channels, samples, bins, modifier names/types, listing order) ranges over the skeleton list "
+         "(10 curated + seeded random ones; <= 3 channels, <= 2 samples per channel, <= 3 bins), all numbers are z3 reals")
+CHECKS["C01"] = {
+    "category": "proof",
+    "text": ("The REAL pipeline Model.__init__ -> builders -> *_combined.__init__ -> _MainModel.expected_data is executed symbolically on structure "
+             "skeletons whose numbers are all symbolic; every reported bin (plain, by sample, through Model.expected_data/expected_actualdata, "
+             "with sample/bin clipping, with the non-default interpolation codes) is proved by z3 equal to the independent rate formula of the "
+             "statement for ALL parameter values inside and outside |alpha|<=1 and all positive yields; channel slices tile the main data in the "
+             "reported order. " + _PIPE + ". Known finding (listed): clip_sample_data > 0 makes samples absent from a channel contribute."),
+    "note": ("interpolators replaced by their C03 contract; index/mask computations that are fully concrete are run by CPython with the numpy backend "
+             "of the tree under test; other backends only through op contracts; the structure is bounded (stated), the numbers are not"),
+    "technique": "contract-based deductive verification: symbolic execution of the real constructors and evaluators per structure skeleton, z3 equality with an independent oracle; native replay",
+}
+CHECKS["C02"] = {
+    "category": "proof",
+    "text": ("The REAL constraint constructors, make_pdf, Simultaneous/Independent.log_prob and Model.logpdf/mainlogpdf/constraint_logpdf/pdf/"
+             "expected_auxdata are executed symbolically on structure skeletons; parameters, main data and AUXILIARY data are independent symbolic "
+             "reals. Proved: logpdf == sum_g logPois(n_g|E_g) + one term per constrained component (unit Gaussian for normsys/histosys, "
+             "Gaussian(aux|gamma, quadrature-summed relative MC uncertainty) for staterror, Gaussian(lumi_0|lambda, sigma) for lumi, "
+             "Poisson(tau|gamma tau), tau=(nom/unc)^2 for shapesys), each paired with the auxiliary datum at the reported position; main + "
+             "constraint == full; pdf == exp(logpdf); config.auxdata is the nominal auxiliary data in the reported order; overrides of "
+             "auxdata/sigmas/factors appear verbatim. Found and repaired (fix: commit): constraint_logpdf/expected_auxdata raised IndexError on "
+             "models without constrained parameters. " + _PIPE + "."),
+    "note": "density formulas are the C04 specification functions (xlogy, lgamma, log, sqrt uninterpreted with axioms); structure bounded, numbers unbounded",
+    "technique": "contract-based deductive verification: symbolic execution of the real likelihood pipeline per structure skeleton, z3 equality with the template oracle; native replay",
+}
+CHECKS["C10"] = {
+    "category": "proof",
+    "text": ("Batched models (batch size 2 in the quick tier; 1, 2, 3 in the thorough tier) are executed symbolically on structure skeletons with "
+             "DISTINCT symbolic parameter and data rows: every row of expected_data / expected_actualdata / logpdf is proved equal to the row-local "
+             "oracle evaluated on that row alone (== the unbatched model by C01/C02), the batch axis is leading. Sample shapes are checked natively "
+             "(bounded, labelled). " + _PIPE + "."),
+    "note": "samplers are external (shape only, bounded); batch sizes bounded as stated; numbers unbounded",
+    "technique": "contract-based deductive verification: symbolic execution of the batched pipeline per structure skeleton with distinct symbolic rows, z3; native replay",
+}
+for _p in ("C01", "C02", "C10"):
+    NOT_APPLICABLE.pop(_p, None)
